@@ -556,12 +556,13 @@ func ruleC10FromPlainDocument(c *Ctx) {
 	// the AsArray call of the plain arm: its argument derives from ExecReader(query.data, name) and is not the thunk's result
 	n := 0
 	var why []string
-	allInstrs(f, func(b *ssa.BasicBlock, in ssa.Instruction) {
+	// (looking through helpers the FROM builder was split into: their parameters resolve to the builder's own values)
+	deepInstrs(f, func(_ *ssa.Function, tb *TB, b *ssa.BasicBlock, in ssa.Instruction) {
 		call, ok := in.(*ssa.Call)
 		if !ok || call.Common().StaticCallee() == nil || call.Common().StaticCallee().Name() != "AsArray" {
 			return
 		}
-		at := NewTB().Of(call.Call.Args[0])
+		at := tb.Of(call.Call.Args[0])
 		if !strings.Contains(at.String(), "ExecReader(") || strings.Contains(at.String(), "dyn(") && !strings.Contains(at.String(), "phi{") {
 			return
 		}
@@ -581,4 +582,129 @@ func ruleC10FromPlainDocument(c *Ctx) {
 		why = append(why, "anchor lost: no AsArray of the resolved path")
 	}
 	c.Check(len(why) == 0, "c10.from-plain-document", "BuildFromAliasedTable", c.P.Pos(f.Pos()), fmt.Sprintf("%d plain-path sources pass objects through PlainDocument", n), strings.Join(uniq(why), "; "))
+}
+
+func init() { register("C10", ruleC10BoundedSend) }
+
+// ruleC10BoundedSend: a goroutine never blocks on a channel whose capacity cannot hold all senders.
+func ruleC10BoundedSend(c *Ctx) {
+	c.Doc("c10.bounded-send", "no goroutine started in a loop performs a blocking send on a channel made with a constant capacity: the senders are as many as the loop's rounds, the slots are not, and a sender that blocks never reaches its deferred wg.Done — wg.Wait (and with it the query) hangs as soon as more goroutines fail than the channel holds. A send inside a select with a default case, or on a channel sized by a run-time value, is not flagged (not decided)")
+	n, sends := 0, 0
+	for _, f := range c.P.ModFuncs {
+		for _, b := range f.Blocks {
+			for _, in := range b.Instrs {
+				g, ok := in.(*ssa.Go)
+				if !ok {
+					continue
+				}
+				n++
+				var target *ssa.Function
+				var mc *ssa.MakeClosure
+				switch v := g.Call.Value.(type) {
+				case *ssa.MakeClosure:
+					target, mc = v.Fn.(*ssa.Function), v
+				case *ssa.Function:
+					target = v
+				}
+				if target == nil {
+					continue
+				}
+				inLoop := false
+				for _, s := range b.Succs {
+					if reaches(s, b) {
+						inLoop = true
+					}
+				}
+				// the goroutine's body and the function literals it defers or creates
+				var bodies []*ssa.Function
+				var collect func(h *ssa.Function, d int)
+				collect = func(h *ssa.Function, d int) {
+					if d > 3 {
+						return
+					}
+					bodies = append(bodies, h)
+					for _, a := range h.AnonFuncs {
+						collect(a, d+1)
+					}
+				}
+				collect(target, 0)
+				for _, h := range bodies {
+					allInstrs(h, func(_ *ssa.BasicBlock, hin ssa.Instruction) {
+						snd, isSend := hin.(*ssa.Send)
+						if !isSend {
+							return
+						}
+						sends++
+						mk := chanOrigin(snd.Chan, mc, 0)
+						if mk == nil {
+							return
+						}
+						k, isConst := constIntOf(mk.Size)
+						c.Check(!(isConst && inLoop), "c10.bounded-send", c.P.funcKey(h)+"/send", c.P.Pos(snd.Pos()), "the channel is not a constant-capacity channel shared by a loop's goroutines",
+							fmt.Sprintf("a goroutine started once per round of a loop sends (blocking) on a channel of constant capacity %d made at %s: once the slots are taken the next sender blocks before its deferred Done runs and wg.Wait never returns", k, c.P.Pos(mk.Pos())))
+					})
+				}
+			}
+		}
+	}
+	if sends == 0 {
+		c.PassTrivial("c10.bounded-send", "module", "-", fmt.Sprintf("no channel send in any of the %d goroutine bodies", n))
+	}
+}
+
+// chanOrigin: the make(chan …) a channel value comes from, looking through captured variables of the goroutine's closure.
+func chanOrigin(v ssa.Value, mc *ssa.MakeClosure, d int) *ssa.MakeChan {
+	if d > 6 || v == nil {
+		return nil
+	}
+	switch x := v.(type) {
+	case *ssa.MakeChan:
+		return x
+	case *ssa.ChangeType:
+		return chanOrigin(x.X, mc, d+1)
+	case *ssa.UnOp:
+		if x.Op != token.MUL {
+			return nil
+		}
+		switch a := x.X.(type) {
+		case *ssa.Alloc:
+			var mk *ssa.MakeChan
+			for _, st := range storesTo(a) {
+				if m := chanOrigin(st.Val, mc, d+1); m != nil {
+					mk = m
+				}
+			}
+			return mk
+		case *ssa.FreeVar:
+			return chanOrigin(a, mc, d+1)
+		}
+	case *ssa.FreeVar:
+		// resolve through the enclosing closures up to the creating function
+		fn := x.Parent()
+		var found *ssa.MakeChan
+		if par := fn.Parent(); par != nil {
+			allInstrs(par, func(_ *ssa.BasicBlock, in ssa.Instruction) {
+				m, ok := in.(*ssa.MakeClosure)
+				if !ok || m.Fn != ssa.Value(fn) {
+					return
+				}
+				for i, fv := range fn.FreeVars {
+					if fv == x && i < len(m.Bindings) {
+						b := m.Bindings[i]
+						if a, isA := b.(*ssa.Alloc); isA {
+							for _, st := range storesTo(a) {
+								if mk := chanOrigin(st.Val, nil, d+1); mk != nil {
+									found = mk
+								}
+							}
+						} else if mk := chanOrigin(b, nil, d+1); mk != nil {
+							found = mk
+						}
+					}
+				}
+			})
+		}
+		return found
+	}
+	return nil
 }
